@@ -40,7 +40,16 @@ def failures(pid, tier, replay):
     if replay:
         return engine.engine_replay(pid, replay)
     fams = _fams([dict(fam="fail", K=3, CH=3)], [dict(fam="fail", K=27, CH=40)], tier)
-    return engine.engine_check(pid, fams, tier, maxruns=32 if tier == "quick" else 500)
+
+    def codes(s):
+        # real processes: exit statuses that ParseExitStatus has to pass through unchanged (130 is the interrupt status and excluded)
+        n = sum(ord(c) for c in s["id"])
+        for st in s["hist"]:
+            for f in st.get("fail", []):
+                f["code"] = [143, 129, 255, 127, 2, 1, 126, 64][(n + f["s"]) % 8]
+        return s
+    h2 = dict(fams=[dict(fam="fail", K=2, CH=2, mut=codes)], limit=120 if tier == "quick" else 1500, maxruns=3)
+    return engine.engine_check(pid, fams, tier, maxruns=32 if tier == "quick" else 500, h2=h2)
 
 
 # ---------------------------------------------------------------------------
